@@ -243,6 +243,172 @@ class _HexBaseP:
             yield 'a3:from-the-bottom-cap-to-the-top-cap-along-the-axis', And(*[close(a, b) for a, b in zip(result[2], scale(top - bot, d))])
 
 
+# ------------------------------------------------------------------ which listed planes are adjacent (modular chain)
+#   lemma.hexagon-adjacency        geometry: in a hexagonal prism, two non-parallel side planes are adjacent iff their
+#                                  common line lies strictly on the cell's side of both planes of the remaining pair
+#   areHexSidesAdjacent            the real function returns the common line exactly when that test succeeds
+#   hexSortSides[pairing]          the real function applies the test to every pair of planes from different pairs,
+#                                  with the two planes of the REMAINING pair, and demands exactly six adjacent pairs
+
+def _pipi_shape(fresh, plane1, plane2):
+    return ((fresh('x'), fresh('y'), fresh('z')), (fresh('dx'), fresh('dy'), fresh('dz')))
+
+
+def _pipi_assume(res, plane1, plane2):
+    pt, d = res
+    return [dot(sub(pt, plane1[0]), plane1[1]) == 0, dot(sub(pt, plane2[0]), plane2[1]) == 0,
+            dot(d, plane1[1]) == 0, dot(d, plane2[1]) == 0, dot(d, d) == 1]
+
+
+def _pipi_requires(plane1, plane2):
+    c = cross(plane1[1], plane2[1])
+    return dot(c, c) > 0
+
+
+@contract(LT.areHexSidesAdjacent, props=['C07'], name='Lattice.areHexSidesAdjacent')
+class _Adjacent:
+    """The common line of the two planes is returned exactly when its point lies strictly on the stated side of both
+    other planes; otherwise None.  pointInPlaneIntersection by contract (a point of both planes, a unit direction
+    orthogonal to both normals; its precondition -- independent normals -- is an obligation here)."""
+    native = False
+    hooks = {}
+
+    def cases(S):
+        for s1 in (1, -1):
+            for s2 in (1, -1):
+                yield f'sides={s1:+d},{s2:+d}', {
+                    'plane1': (tuple(S.reals('p1 p2 p3')), tuple(S.reals('n1 n2 n3'))),
+                    'plane2': (tuple(S.reals('q1 q2 q3')), tuple(S.reals('m1 m2 m3'))),
+                    'other_surf1': ((tuple(S.reals('a1 a2 a3')), tuple(S.reals('k1 k2 k3'))), s1),
+                    'other_surf2': ((tuple(S.reals('b1 b2 b3')), tuple(S.reals('l1 l2 l3'))), s2)}
+
+    def requires(plane1, plane2, other_surf1, other_surf2, calls=None):
+        return _pipi_requires(plane1, plane2)
+
+    def ensures(result, plane1, plane2, other_surf1, other_surf2, calls):
+        pt, d = calls.result('pointInPlaneIntersection')
+        a1, a2 = calls.args('pointInPlaneIntersection')
+        yield 'common-line-of-the-two-planes', a1 is plane1 and a2 is plane2 or (a1 == plane1 and a2 == plane2)
+        g1 = dot(sub(pt, other_surf1[0][0]), other_surf1[0][1]) * other_surf1[1]
+        g2 = dot(sub(pt, other_surf2[0][0]), other_surf2[0][1]) * other_surf2[1]
+        inside = And(g1 > 0, g2 > 0)
+        if result is None:
+            yield 'none-only-when-the-line-is-not-strictly-inside', Not(inside)
+        else:
+            yield 'line-returned-only-when-strictly-inside', inside
+            yield 'the-line-is-the-common-line', result[0] is pt and result[1] is d or (tuple(result[0]) == tuple(pt) and tuple(result[1]) == tuple(d))
+
+
+def _install_adjacent_hook():
+    from pyvc.interp import havoc
+    _Adjacent.hooks = {LT.pointInPlaneIntersection: havoc('pointInPlaneIntersection', _pipi_shape, assume=_pipi_assume,
+                                                          requires=_pipi_requires)}
+
+
+_install_adjacent_hook()
+
+_CROSS_PAIRS = [(i, j) for i in range(6) for j in range(i + 1, 6) if i // 2 != j // 2]
+_SORT_STATE = {}
+
+
+def _adjacent_hook(it, f, args, kw):
+    """areHexSidesAdjacent by contract: None or a line; which of the two is the pattern of the current case."""
+    n = len([c for c in it.p.calls if c['callee'] == 'areHexSidesAdjacent'])
+    res = ('line', n) if _SORT_STATE['pattern'][n] else None
+    it.p.calls.append({'callee': 'areHexSidesAdjacent', 'args': list(args), 'kw': dict(kw), 'result': res})
+    return res
+
+
+_adjacent_hook.callee_name = 'areHexSidesAdjacent'
+
+
+@contract(LT.hexSortSides, props=['C07', 'C17'], name='Lattice.hexSortSides[pairing]')
+class _SortPairing:
+    """For EVERY outcome of the twelve adjacency tests (2^12 patterns; areHexSidesAdjacent by contract): the tests are
+    made for exactly the pairs of planes from different listed pairs, each with the two surfaces of the remaining
+    listed pair; the dictionary holds the test result for those and None for the planes of one listed pair; anything
+    but six adjacent pairs is rejected."""
+    native = False
+    hooks = {LT.areHexSidesAdjacent: _adjacent_hook}
+
+    def cases(S):
+        for bits in range(1 << 12):
+            pattern = tuple(bool(bits >> k & 1) for k in range(12))
+            yield 'pattern=' + ''.join('1' if b else '0' for b in pattern), {'pattern': pattern}
+
+    def call(pattern):
+        _SORT_STATE['pattern'] = pattern
+        surfs = [((f'point{i}', f'normal{i}'), f'side{i}') for i in range(6)]
+        return LT.hexSortSides(surfs), surfs
+
+    raises = {LT.LatticeError: lambda pattern, calls=None: sum(pattern) != 6}
+
+    def ensures(result, pattern, calls):
+        adj, surfs = result
+        yield 'keys-are-the-15-pairs', sorted(adj) == [(i, j) for i in range(6) for j in range(i + 1, 6)]
+        yield 'planes-of-one-listed-pair-are-not-adjacent', all(adj[(2 * g, 2 * g + 1)] is None for g in range(3))
+        tests = [c for c in calls.calls if c['callee'] == 'areHexSidesAdjacent']
+        yield 'twelve-tests', len(tests) == 12
+        for (i, j), c in zip(_CROSS_PAIRS, tests):
+            other = ({0, 1, 2} - {i // 2, j // 2}).pop()
+            yield f'pair{i}{j}:tested-against-the-remaining-listed-pair', \
+                c['args'][0] is surfs[i][0] and c['args'][1] is surfs[j][0] \
+                and {id(c['args'][2]), id(c['args'][3])} == {id(surfs[2 * other]), id(surfs[2 * other + 1])}
+            yield f'pair{i}{j}:result-kept', adj[(i, j)] is c['result'] or adj[(i, j)] == c['result']
+
+
+@contract(None, props=['C07'], name='lemma.hexagon-adjacency')
+class _HexLemma:
+    """Cross-section of a hexagonal prism: a convex hexagon with opposite sides parallel and equal (vertices
+    c +- P0, c +- P1, c +- P2 in order; the centre is the origin without loss of generality).  For two sides from
+    different parallel pairs, the common point of their lines lies strictly between the two lines of the remaining
+    pair if and only if the two sides are adjacent.  (This is what makes the test of areHexSidesAdjacent report the
+    true adjacency; stated in the plane orthogonal to the prism axis.)"""
+    budget = 90
+
+    def cases(S):
+        for i in range(6):
+            for j in range(i + 1, 6):
+                if i % 3 != j % 3:
+                    yield f'sides{i}{j}', {'i': i, 'j': j, 'P': [S.reals(f'x{k} y{k}') for k in range(3)], 'X': S.reals('X Y')}
+
+    def call(i, j, P, X):
+        return None
+
+    def requires(i, j, P, X):
+        V, g = _hexagon2d(P)
+        convex = [_cr2(_sub2(V[(k + 1) % 6], V[k]), _sub2(V[(k + 2) % 6], V[(k + 1) % 6])) > 0 for k in range(6)]
+        return And(*convex, g(i, X) == 0, g(j, X) == 0)
+
+    def ensures(result, i, j, P, X):
+        V, g = _hexagon2d(P)
+        other = [k for k in range(3) if k not in (i % 3, j % 3)][0]
+        inside = And(g(other, X) * g(other, (0, 0)) > 0, g(other + 3, X) * g(other + 3, (0, 0)) > 0)
+        if (j - i) % 6 in (1, 5):
+            yield 'adjacent-sides:common-point-strictly-between-the-remaining-pair', inside
+        else:
+            yield 'non-adjacent-sides:common-point-not-strictly-between-the-remaining-pair', Not(inside)
+
+
+def _sub2(a, b):
+    return (a[0] - b[0], a[1] - b[1])
+
+
+def _cr2(a, b):
+    return a[0] * b[1] - a[1] * b[0]
+
+
+def _hexagon2d(P):
+    V = [tuple(p) for p in P] + [(-p[0], -p[1]) for p in P]
+
+    def g(k, X):
+        e = _sub2(V[(k + 1) % 6], V[k % 6])
+        n = (e[1], -e[0])
+        d = _sub2(X, V[k % 6])
+        return n[0] * d[0] + n[1] * d[1]
+    return V, g
+
+
 @contract(LT.hexSortSides, props=['C07', 'C17'], name='Lattice.hexSortSides[count]', status='B')
 class _HexCount:
     scope = 'surface lists of length 0..8 other than 6'
@@ -271,17 +437,31 @@ def _sweep_c07(tier, seed):
 
 BOUNDED = {'C07': [_sweep_c07]}
 EXPLANATION = {'C07': (
-    'Proved for all inputs on the real code: pointInPlaneIntersection (point in both planes, unit direction orthogonal '
-    'to both normals), projectPointOnPlane, planeSide, latticeVector (C06). hexLatticeBaseVectors, hexVertices and '
-    'hexSortSides (data-dependent walk over the adjacency of the six planes) are NOT proved: they are covered by a '
-    'sampled stand-in on seeded regular and irregular centrally symmetric hexagons in random orientation, all '
-    'admissible listing orders (third-listed plane adjacent or not), either normal orientation, with and without cap '
-    'planes. Given the adjacency that hexSortSides reports, hexVertices + hexLatticeBaseVectors are proved for every '
-    'centrally symmetric hexagon, every admissible listing and with / without caps (modular contract). The top-level '
-    'claim of C07 therefore rests on the sampled contract only for hexSortSides, plus a bounded deck sweep (family '
-    'hexlattice: LAT=2 prisms parallel to z, regular and irregular hexagons, FILL arrays over i and j, probe points '
-    'located by an independent oracle that tiles the base prism with a1 and a2).')}
+    'Proved for all inputs on the real code, as a chain of modular contracts: pointInPlaneIntersection (point in both '
+    'planes, unit direction orthogonal to both normals), projectPointOnPlane, planeSide, latticeVector (C06); '
+    'areHexSidesAdjacent (the common line of two planes is returned exactly when its point lies strictly on the '
+    "cell's side of the two other planes; pointInPlaneIntersection by contract); hexSortSides (for every one of the "
+    '2^12 outcomes of the twelve adjacency tests: each pair of planes from different listed pairs is tested against '
+    'the two planes of the remaining listed pair, results kept, anything but six adjacent pairs rejected); the '
+    'geometric lemma that makes this test report the true adjacency (convex hexagon with opposite sides parallel and '
+    'equal: the common point of two side lines lies strictly between the lines of the remaining pair iff the sides '
+    'are adjacent; nonlinear real arithmetic, z3); and, given that adjacency, hexVertices + hexLatticeBaseVectors for '
+    'every centrally symmetric hexagon, every admissible listing (third-listed plane adjacent to the first or not), '
+    'with / without caps, either sign of the reported axis (a1 across the first-listed plane, a2 across the '
+    'third-listed, a3 from the bottom to the top cap); develop_lattice for LAT=2 (C06). '
+    'Bounded stand-ins, not counted as proved: the end-to-end contract of hexLatticeBaseVectors on seeded regular and '
+    'irregular hexagons in random orientation (this also cross-checks the two reductions listed under the '
+    'assumptions), and a deck sweep (family hexlattice: LAT=2 prisms parallel to z, regular and irregular hexagons, '
+    'FILL arrays over i and j, probe points located by an independent oracle that tiles the base prism with a1 and a2).')}
 ASSUMPTIONS = {'C07': [
     'hexagonal convention (property text): a1 across the first-listed plane, a2 across the third-listed, a3 across the seventh',
-    'hexSortSides (which listed planes are adjacent): sampled only -- a discharged contract on a symbolic hexagon was tried (solver-pruned branches, pointInPlaneIntersection by contract) and abandoned: more than 180 s per listing; hexVertices / hexLatticeBaseVectors: proved given that adjacency; develop_lattice for LAT=2: discharged modular contract (c06, base vectors arbitrary) plus the bounded hexlattice deck sweep (prisms parallel to z, 2-D index ranges)',
+    'the adjacency lemma is stated in the plane orthogonal to the prism axis with the centre of the hexagon at the '
+    'origin: the side planes of a prism are parallel to the axis, so the side test of a point of the common line does '
+    'not depend on where along the axis the point is taken, and it is invariant under rigid motions (reduction not '
+    'machine-checked; cross-checked by the sampled end-to-end contract in random orientations)',
+    'the cross-section of the base cell is a convex hexagon whose opposite sides are parallel and equal (what a '
+    'hexagonal lattice element is); the link between the adjacency reported by hexSortSides and the adjacency handed to '
+    'the [given-adjacency] contract is by the statement of the two contracts, not by a machine-checked composition',
+    'develop_lattice for LAT=2: discharged modular contract (c06, base vectors arbitrary) plus the bounded hexlattice '
+    'deck sweep (prisms parallel to z, 2-D index ranges)',
 ]}
